@@ -6,6 +6,9 @@ HERE = os.path.dirname(os.path.dirname(os.path.abspath(__file__)))
 
 # id -> (technique, level text, level note, design ref)
 CLAIMED = {
+ "C10": ("relational bounds analysis (dominating linear facts + contracts + callee summaries, Fourier-Motzkin entailment) + deadline typestate + loop/back-edge rules + channel-closure ownership over go/ssa",
+         "Decides, for all functions reachable from the network entry points: every slice/index/make/library-precondition obligation holds and every explicit panic is unreachable on every path (named exclusions listed in the evidence); handshake deadlines are armed before all I/O, not in a loop, and removed on every success path; handshake read loops are size-bounded and never spin; read faults are returned as fatal errors; closable channels are closed once and sends are protected; raw Read buffers are only used as buf[:n]. One known finding (paranoid-IAT zero-length panic). Liveness in general and data-phase memory bounds are not decided.",
+         "go/types+go/ssa faithful; the library contract table in checker/contracts.go; field-interval invariants assume initialised-before-use", "DESIGN.md section 4, C10; section 2.9"),
  "C02": ("must-pass-through (dominance, compositional success-implies) + value provenance + ownership over go/ssa",
          "Decides on every path that Dial succeeds only after the response MAC check, a successful ntor.ClientHandshake on the right operands and a true CompareAuth between that call's AUTH and the received AUTH bytes; HMAC key = identity|node-id; link keys installed only after the parser succeeded, from Kdf of its seed; raw connection closed on failure; CompareAuth constant-time on both full operands; keypairs originate from a per-connection NewKeypair(true). Cryptographic strength is not decided.",
          "go/types+go/ssa faithful; hmac.Equal is constant-time equality", "DESIGN.md section 4, C02"),
